@@ -502,5 +502,8 @@ pub fn gen_cfg(family: &str, rng: &mut Rng) -> Cfg {
         }
         _ => {}
     }
+    if family == "liveness" || family == "handshake" {
+        cfg.set("heal_lag", rng.below(2));
+    }
     cfg
 }
